@@ -90,7 +90,7 @@ func genParsePrologueSrc(r *h.Rand, d delims) string {
 		}
 		sb.WriteString(g.act(r.Pick([]string{"extends", "import", "import"}) + " " + r.Pick(refs)))
 	}
-	sb.WriteString(r.Pick([]string{"", " ", "\n\n", "text"}))
+	sb.WriteString(r.Pick([]string{"", " ", "\n\n", "text", "\v\n", "\u00a0", "\u2029"}))
 	m := r.Intn(3)
 	for i := 0; i < m; i++ {
 		sb.WriteString(g.stmt(2))
